@@ -110,7 +110,12 @@ def classify(prop, t, line):
     ev = bad.get("ev", "?")
     label = "%s_at_%s" % (prop.lower(), ev)
     if prop == "C08" and ev == "fixpoint":
-        return "c08_no_fixed_point" if not bad.get("stable") else "c08_fixed_point_state"
+        if not bad.get("stable"):
+            return "c08_no_fixed_point"
+        rec = {x["e"] for x in bad.get("enis", [])}
+        if any(not c["att"] or c["e"] not in rec for c in bad.get("cloud", [])):
+            return "c08_leaked_interface"
+        return "c08_fixed_point_state"
     if prop == "C08" and ev == "assign_begin":
         # over-quota request: right after a describe, into an interface whose map of that family is empty in the record?
         rec, described = 0, False
